@@ -43,6 +43,9 @@ git -C /repo log --format='%h %s' | grep ' fix: ' | while read -r h subj; do
   if ! git -C $WT revert --no-commit $h >/dev/null 2>&1; then
     echo "-- $h $subj (revert conflicts with later commits, skipped)"; git -C /repo worktree remove --force $WT; continue
   fi
+  if ! (cd $WT && GOFLAGS=-mod=mod GOPROXY=off GOSUMDB=off GOTOOLCHAIN=local go build ./... >/dev/null 2>&1); then
+    echo "-- $h $subj (later commits build on it: the tree does not compile without it, skipped)"; git -C /repo worktree remove --force $WT; continue
+  fi
   out=$(VERIF_REPO=$WT VERIF_OUT=/tmp/verif-sens-out ./check $prop quick 2>&1); rc=$?
   cls=$(echo "$out" | grep -m1 '^  class=' | sed 's/ scenario.*//')
   echo "rc=$rc $prop $h $subj |$cls"
